@@ -1,6 +1,6 @@
 """C16 — String methods (structural clauses only)."""
 
-from ..rules import builtins, exceptions, tables
+from ..rules import builtins, exceptions, tables, textparse
 
 FAMILIES = set("string".split(","))
 PREFIXES = "_make_string_method|fromCharCode_fn|string_call".split("|")
@@ -19,4 +19,6 @@ def run(ctx, rep):
     if implicit is not None:
         implicit.rule_implicit_raisers(ctx, rep, "C16-R2", only=_in_family)
     exceptions.rule_catchable_classes(ctx, rep, "C16-R3", only_pred=_in_family, floor=1)
+    textparse.rule_negative_positions(ctx, rep, "C16-R4", only=_in_family, floor=3)
+    textparse.rule_sibling_index_readers(ctx, rep, "C16-R5")
     rep.undecided += ["the method result tables over the argument grid (values, not shape): a runtime differential, outside static analysis"]
